@@ -11,9 +11,15 @@ EXTENDS Bytes, TraceIO
 W == INSTANCE RtpWire
 H == INSTANCE H264
 A == INSTANCE AV1Loss
+V == INSTANCE VP8
 VARIABLES l, st
 RECURSIVE RunH(_, _, _, _)
 RunH(s, ps, i, acc) == IF i > Len(ps) THEN [ok |-> TRUE, out |-> acc] ELSE LET r == H!RefDepack(s, ps[i], FALSE) IN IF ~r.ok THEN [ok |-> FALSE, out |-> acc] ELSE RunH(r.s, ps, i + 1, acc \o r.out)
+\* VP8: every payload carries a descriptor (S on the first only, partition 0), the frame is the payloads in order; Opus: the packet is the payload
+RunV(ps) == LET rs == [i \in 1..Len(ps) |-> V!RefDecode(ps[i])] IN
+            IF \E i \in 1..Len(ps) : ~rs[i].ok \/ rs[i].f.S # (IF i = 1 THEN 1 ELSE 0) \/ rs[i].f.PID # 0 THEN [ok |-> FALSE, out |-> <<>>]
+            ELSE [ok |-> TRUE, out |-> Flatten([i \in 1..Len(ps) |-> rs[i].f.Payload])]
+RunO(ps) == IF Len(ps) # 1 THEN [ok |-> FALSE, out |-> <<>>] ELSE [ok |-> TRUE, out |-> ps[1]]
 RECURSIVE RunA(_, _, _, _)
 RunA(s, ps, i, acc) == IF i > Len(ps) THEN [ok |-> TRUE, out |-> acc] ELSE LET r == A!RefRxR(s, ps[i], TRUE) IN IF ~r.ok THEN [ok |-> FALSE, out |-> acc] ELSE RunA(r.s, ps, i + 1, acc \o Flatten([k \in 1..Len(r.out) |-> A!SizedOfTx(r.out[k])]))
 Reason(e, s) ==
@@ -29,8 +35,8 @@ Reason(e, s) ==
     ELSE IF s.started /\ pk[1].p.ts # AddU32(s.ts, <<0, 0, 11, 184>>) THEN "timestamp_advance"       \* 3000 samples per frame
     ELSE IF \E i \in 1..n : pk[i].p.ver # 2 \/ pk[i].p.pad \/ pk[i].p.x THEN "header_bits"
     ELSE LET ps == [i \in 1..n |-> pk[i].p.payload]
-             r == IF e.codec = "h264" THEN RunH(H!DepackInit, ps, 1, <<>>) ELSE RunA(A!RxInit, ps, 1, <<>>)
-             want == IF e.codec = "h264" THEN Flatten([k \in 1..Len(e.units) |-> H!Framed(e.units[k], FALSE)]) ELSE A!ExpectedDepack(e.obus) IN
+             r == CASE e.codec = "h264" -> RunH(H!DepackInit, ps, 1, <<>>) [] e.codec = "av1" -> RunA(A!RxInit, ps, 1, <<>>) [] e.codec = "vp8" -> RunV(ps) [] OTHER -> RunO(ps)
+             want == CASE e.codec = "h264" -> Flatten([k \in 1..Len(e.units) |-> H!Framed(e.units[k], FALSE)]) [] e.codec = "av1" -> A!ExpectedDepack(e.obus) [] OTHER -> Flatten(e.units) IN
          IF ~r.ok THEN "reference_receiver_refuses_the_library_s_packets"
          ELSE IF r.out # want THEN "reference_receiver_gets_other_units"
          ELSE IF e.rx_res # "ok" THEN "own_receiver_refuses"
@@ -41,7 +47,7 @@ Reason(e, s) ==
          ELSE IF Len(e.heads) # n \/ Len(e.tails) # n THEN "harness_heads_tails"
          ELSE IF ~e.heads[1] THEN "first_packet_of_frame_is_not_a_partition_head"
          ELSE IF \E i \in 1..n : e.tails[i] # (i = n) THEN "partition_tail_is_not_exactly_the_last_packet"
-         ELSE IF \E i \in 1..n : e.heads[i] # (IF e.codec = "h264" THEN ~(ps[i][1] % 32 \in {28, 29} /\ ps[i][2] < 128) ELSE ps[i][1] < 128) THEN "partition_head_flag"
+         ELSE IF \E i \in 1..n : e.heads[i] # (CASE e.codec = "h264" -> ~(ps[i][1] % 32 \in {28, 29} /\ ps[i][2] < 128) [] e.codec = "av1" -> ps[i][1] < 128 [] e.codec = "vp8" -> (ps[i][1] \div 16) % 2 = 1 [] OTHER -> TRUE) THEN "partition_head_flag"
          ELSE ""
 Init == l = 1 /\ st = [poisoned |-> TRUE, nextSeq |-> 0, ts |-> <<0, 0, 0, 0>>, started |-> FALSE]
 Next ==
